@@ -1,16 +1,21 @@
 """C19 — analytical error formulas equal exact expectations.
 
+The model (coq/theories/Model/C19_ErrFormulas.v) is the model of the REPAIRED code: fixes calc-direct-sum-nonsquare-check,
+calc-fisher-matrix-total-size, qmpt-mse-linear-analytical-qoperation (owner C19) and calc-prob-dists-mixed-outcome-counts,
+calc-fisher-matrix-mixed-outcome-counts (owner C08).  On a tree without one of them the defect is reported again.
+
 Sub-checks
   helpers      matrix_util / data_analysis helper functions vs the extracted model (+ error branches)
   expect       exact expectation by complete enumeration of outcome sequences (model functional) vs the
                implementation's covariance / MSE formulas on concrete rational distributions
-  tomo         the four tomography classes: prob dists, covariances, linear-estimate covariance, MSE (both modes),
-               MSE of empirical distributions, Fisher matrices, Cramer-Rao bound vs the model; the property predicate
-               "analytical MSE of the object = exact expectation" (model theorem) on the implementation's value
+  tomo         the four tomography classes, schedules with equal AND unequal outcome counts: prob dists, covariances,
+               linear-estimate covariance, MSE (both modes), MSE of empirical distributions, Fisher matrices, Cramer-Rao bound
+               vs the model; the property predicate "analytical MSE of the object = exact expectation" (model theorem) on
+               the implementation's value
   object_err   ties the specification side (which entries of the object are implied by the variables) to the real
                LinearEstimator / convert_var_to_qoperation: the estimator is probed, its exact MSE computed from the
                (proved exact) covariance and compared with calc_mse_linear_analytical
-  mixed        testers with unequal outcome counts
+  mixed        testers with unequal outcome counts: total covariance vs an independent numpy reference
 """
 import itertools, warnings, math
 from fractions import Fraction
@@ -82,7 +87,8 @@ def chk_helpers(ctx, case):
             "replace": "matrix_util.replace_prob_dist", "fisher": "matrix_util.calc_fisher_matrix",
             "fisher_total": "matrix_util.calc_fisher_matrix_total", "se": "matrix_util.calc_se",
             "mse_prob_dists": "matrix_util.calc_mse_prob_dists", "general_norm": "data_analysis.calc_mse_general_norm",
-            "da_cov": "data_analysis.calc_covariance_matrix_of_prob_dists", "direct_sum_bad": "matrix_util.calc_direct_sum"}[kind]
+            "da_cov": "data_analysis.calc_covariance_matrix_of_prob_dists", "direct_sum_bad": "matrix_util.calc_direct_sum",
+            "mse_qops": "data_analysis.calc_mse_qoperations"}[kind]
 
     def bad(sig, what):
         ctx.violation("helpers", site, sig, what, case)
@@ -181,22 +187,23 @@ def chk_helpers(ctx, case):
         if band:
             return
         if kind == "fisher_total":
-            # (a) model of the code (accumulator sized by the distribution, in-place broadcast)  (b) the definition sum_j w_j F_j
-            valid = all(w >= 0 for w, _, _ in items) and all(
-                m.try_call("c19.mu_fisher", [len(p), len(G), nv], [eps_m] + list(p) + [x for g in G for x in g])[0] == "ok" for _, p, G in items)
+            # model of the (repaired) code = the definition sum_j w_j F_j, an nv x nv matrix (theorem C19_mu_fisher_total_ok);
+            # the model's error branches (negative weight, invalid distribution, eps <= 0) must raise ValueError
             if ms == "ok":
                 sz = int(mval[0]); mval = mval[1:]
-            if (ms == "err") != (st == "err") or (ms == "ok" and not close_arr(val, fl(mval), TOL)):
-                bad("model-mismatch", "implementation %s %s, model of the code %s %s" % (st, val if st == "err" else np.asarray(val).tolist(), ms, mval if ms == "err" else fl(mval)))
-                return
-            if st == "err" and val != "ValueError":
-                bad("error-kind", "raised %s" % val)
-            if valid:
                 ref = fl(m.call("c19.fisher_total_def", [len(items), mlen, nv], qs))
-                if st == "err" or not close_arr(val, ref, TOL):
-                    ctx.violation("helpers", site, "matrix-size-from-prob-dist",
-                                  "valid input with %d outcomes and %d variables: %s; definition sum_j w_j F_j is the %dx%d matrix %s (accumulator is allocated with the size of the distribution)" % (
+                if sz != nv or not close_arr(fl(mval), ref, 1e-12):
+                    bad("model-self-check", "model of the code %s differs from the definition sum_j w_j F_j %s" % (fl(mval), ref))
+                    return
+                if st == "err" or np.asarray(val).shape != (nv, nv) or not close_arr(val, ref, TOL):
+                    # failure class: the result matrix is sized by the number of outcomes instead of the number of variables
+                    sized_by_dist = mlen != nv and (st == "err" or np.asarray(val).shape == (mlen, mlen))
+                    ctx.violation("helpers", site, "matrix-size-from-prob-dist" if sized_by_dist else "value",
+                                  "valid input with %d outcomes and %d variables: %s; definition sum_j w_j F_j is the %dx%d matrix %s" % (
                                       mlen, nv, ("raises " + val) if st == "err" else ("returns " + str(np.asarray(val).tolist())), nv, nv, ref), case)
+                return
+            if not (st == "err" and val == "ValueError"):
+                bad("error-kind", "model rejects (code %s), implementation %s %s" % (mval, st, val if st == "err" else np.asarray(val).tolist()))
             return
         if ms == "err":
             if not (st == "err" and val == "ValueError"):
@@ -231,6 +238,29 @@ def chk_helpers(ctx, case):
         ctx.count("helpers", key=("mpd", repr(case["xs_list"]), repr(case["ys_list"])), label="mse_prob_dists", nontrivial=len(xs_list) >= 3)
         if not flow.close(float(mse), mean_m, 1e-12) or not flow.close(float(std) ** 2, var_m, 1e-10):
             bad("value", "calc_mse_prob_dists=(%s,%s) model mean %s variance %s" % (mse, std, mean_m, var_m))
+    elif kind == "mse_qops":
+        # the sample MSE the analytical qoperation-mode value is compared with in quara's simulation checks:
+        # mean / std(ddof=1) over repetitions of |stacked(estimate) - stacked(truth)|^2
+        import random as _r
+        c = S.c_sys_of("qubit")
+        rnd = _r.Random(case["seed"])
+        mk = (lambda: S.make_state(c, S.rand_density(rnd, c.dim), True)) if case["obj"] == "state" else (
+            lambda: S.make_povm(c, S.rand_povm_ops(rnd, c.dim, 3), True))
+        xs = [mk() for _ in range(case["R"])]
+        ys = [mk()] * case["R"] if case["same_truth"] else [mk() for _ in range(case["R"])]
+        ses = []
+        for x, y in zip(xs, ys):
+            xv = list(np.asarray(x.to_stacked_vector(), dtype=float)); yv = list(np.asarray(y.to_stacked_vector(), dtype=float))
+            ses.append(m.call("c19.se", [1, len(xv)], xv + yv)[0])
+        mean_m, var_m = fl(m.call("c19.mean_var", [], ses))
+        mse, std = da.calc_mse_qoperations(xs, ys, mode="qoperation", with_std=True)
+        mse2 = da.calc_mse_qoperations(xs, ys, mode="qoperation", with_std=False)
+        ctx.count("helpers", key=("mq", case["seed"], case["obj"], case["R"]), label="mse_qoperations-" + case["obj"], nontrivial=case["R"] >= 3)
+        if not flow.close(float(mse), mean_m, 1e-12) or not flow.close(float(std) ** 2, var_m, 1e-10) or not flow.close(float(mse2), mean_m, 1e-12):
+            bad("value", "calc_mse_qoperations=(%s,%s) / %s, model mean %s variance %s of the squared distances of the stacked vectors" % (mse, std, mse2, mean_m, var_m))
+        st, val = impl_call(da.calc_mse_qoperations, xs, ys, mode="nonsense")
+        if not (st == "err" and val == "ValueError"):
+            bad("error-kind", "unknown mode: %s %s, documented ValueError" % (st, val))
     elif kind == "general_norm":
         xs = [np.array([float(fr(x)) for x in v]) for v in case["xs"]]; y = np.array([float(fr(x)) for x in case["y"]])
         l1 = lambda a, b: np.sum(np.abs(a - b))
@@ -315,6 +345,8 @@ def gen_helpers(ctx):
         cases.append({"kind": "mse_prob_dists",
                       "xs_list": [[[rq(rng, 0, 9) for _ in range(ln)] for _ in range(K)] for _ in range(R)],
                       "ys_list": [[[rq(rng, 0, 9) for _ in range(ln)] for _ in range(K)] for _ in range(R)]})
+    for _ in range(max(4, k // 3)):
+        cases.append({"kind": "mse_qops", "obj": rng.choice(["state", "povm"]), "R": rng.randint(2, 6), "same_truth": rng.random() < 0.6, "seed": rng.randrange(1 << 30)})
     for _ in range(max(4, k // 2)):
         K = rng.randint(1, 5); ln = rng.randint(1, 4)
         cases.append({"kind": "general_norm", "xs": [[rq(rng) for _ in range(ln)] for _ in range(K)], "y": [rq(rng) for _ in range(ln)]})
@@ -408,9 +440,14 @@ def setup_of(case):
     return t, d2
 
 
+def sizes_of(t):
+    """numbers of outcomes of the schedules (they may differ)"""
+    return [int(t.num_outcomes(j)) for j in range(t.num_schedules)]
+
+
 def header(case, t, d2, A, b, v, extra=()):
     nr, nv = A.shape
-    zs = [S.TYPES[case["type"]], 1 if case["eq"] else 0, nv, nr, t.num_schedules, d2, case.get("mo", 0)] + list(extra)
+    zs = [S.TYPES[case["type"]], 1 if case["eq"] else 0, nv, nr, t.num_schedules, d2, case.get("mo", 0)] + sizes_of(t) + list(extra)
     qs = rflat(A) + rflat(b) + rflat(v)
     return zs, qs
 
@@ -434,63 +471,82 @@ def chk_tomo(ctx, case):
     def bad(site, sig, what):
         ctx.violation("tomo", site, sig, what, case)
 
-    # ---- probability distributions (reshape / truncate / normalise)
+    # ---- probability distributions (split by the schedules' outcome counts / truncate / normalise)
+    ms = sizes_of(t); offs = [0]
+    for x in ms:
+        offs.append(offs[-1] + x)
+    mixed = len(set(ms)) > 1
+    if offs[-1] != nr:
+        bad(cls + ".num_outcomes", "sizes", "sum of num_outcomes(j) = %d, matA has %d rows" % (offs[-1], nr))
+        return
     raw = A @ v + b
     band = bool(np.any(np.abs(raw - eps) < 1e-3 * eps))
     zs, qs = header(case, t, d2, A, b, v)
-    st, pd_m = m.try_call("c19.prob_dists", zs, qs + [eps])
+    pd_m = fl(m.call("c19.prob_dists", zs, qs + [eps]))
     pi = impl_call(t.calc_prob_dists, truth)
-    if st == "err" or pi[0] == "err":
-        ctx.count("tomo", key=("pd", repr(case)), label=label + "-reshape-error", nontrivial=True)
-        if (st == "err") != (pi[0] == "err"):
-            bad(cls + ".calc_prob_dists", "error-branch", "model %s %s, implementation %s" % (st, pd_m, pi))
+    rows_i = None
+    if pi[0] == "ok":
+        try:
+            rows_i = [np.asarray(r, dtype=float).ravel() for r in pi[1]]
+        except Exception:
+            rows_i = None
+    if rows_i is None or [len(r) for r in rows_i] != ms:
+        ctx.count("tomo", key=("pd", repr(case)), label=label + "-prob-dists-shape", nontrivial=True)
+        what = "schedules with %s outcomes: calc_prob_dists %s; expected one distribution per schedule with these lengths" % (
+            ms, ("raises " + pi[1]) if pi[0] == "err" else "returns rows of lengths %s" % ([len(r) for r in rows_i] if rows_i is not None else "?"))
+        if mixed:
+            bad("StandardQTomography.calc_prob_dists", "mixed-outcome-counts", what)
+        else:
+            bad(cls + ".calc_prob_dists", "shape", what)
         return
-    pd_i = np.asarray(pi[1], dtype=float)
-    mrow = pd_i.shape[1]
-    ctx.count("tomo", key=("case", repr(case)), label=label + ("-band" if band else ""), nontrivial=not band)
+    pd_i = np.concatenate(rows_i)
+    ctx.count("tomo", key=("case", repr(case)), label=label + ("-mixed" if mixed else "") + ("-band" if band else ""), nontrivial=not band)
     if band:
         return
-    if not close_arr(pd_i, fl(pd_m), 1e-11):
-        bad(cls + ".calc_prob_dists", "value", "prob dists differ from model: %s vs %s" % (pd_i.tolist(), fl(pd_m)))
+    if not close_arr(pd_i, pd_m, 1e-11):
+        bad(cls + ".calc_prob_dists", "value", "prob dists differ from model: %s vs %s" % (pd_i.tolist(), pd_m))
         return
     # ---- covariance of the empirical distributions
     covt_m = np.array(fl(m.call("c19.tomo_cov_total", header(case, t, d2, A, b, v, [len(ns)])[0], qs + [eps] + ns))).reshape(nr, nr)
     covt_i = t.calc_covariance_mat_total(truth, ns)
     if not close_arr(covt_i, covt_m, 1e-11):
-        bad(cls + ".calc_covariance_mat_total", "value", "total covariance differs from model (max diff %g)" % np.max(np.abs(covt_i - covt_m)))
+        bad(cls + ".calc_covariance_mat_total", "value", "total covariance differs from model (max diff %g)" % np.max(np.abs(np.asarray(covt_i) - covt_m)))
     for j in sorted(set([0, J - 1, J // 2])):
         cs = t.calc_covariance_mat_single(truth, j, ns[j])
-        if not close_arr(cs, covt_m[j * mrow:(j + 1) * mrow, j * mrow:(j + 1) * mrow], 1e-11):
-            bad(cls + ".calc_covariance_mat_single", "value", "schedule %d: %s vs model block" % (j, cs.tolist()))
+        if not close_arr(cs, covt_m[offs[j]:offs[j + 1], offs[j]:offs[j + 1]], 1e-11):
+            bad(cls + ".calc_covariance_mat_single", "value", "schedule %d: %s vs model block" % (j, np.asarray(cs).tolist()))
     # property predicate on the implementation's output: block j is (diag p_j - p_j p_j^T)/n_j of the Born probabilities,
     # off-diagonal blocks vanish (independent schedules)
     ref = np.zeros((nr, nr))
     for j in range(J):
-        pj = pd_i[j]
-        ref[j * mrow:(j + 1) * mrow, j * mrow:(j + 1) * mrow] = (np.diag(pj) - np.outer(pj, pj)) / ns[j]
+        pj = rows_i[j]
+        ref[offs[j]:offs[j + 1], offs[j]:offs[j + 1]] = (np.diag(pj) - np.outer(pj, pj)) / ns[j]
     if not close_arr(covt_i, ref, 1e-11):
         bad(cls + ".calc_covariance_mat_total", "not-block-diagonal-multinomial", "total covariance is not the direct sum of (diag p - pp^T)/n")
     # ---- left inverse (numerical kernel: certificate L A = I checked exactly in the model, then used as input)
     L = mu.calc_left_inv(A)
+    out = m.call("c19.tomo_mse", zs, qs + [eps] + ns + rflat(L))
+    resid, msev, ana_var, ana_qop, exact, empi_tr, empi_cl = [float(x) for x in out[:7]]
+    V_m = np.array(fl(out[7:])).reshape(nv, nv)
+    if resid > 1e-9:
+        bad("matrix_util.calc_left_inv", "certificate", "max|L A - I| = %g" % resid)
+        return
     for mode in ("var", "qoperation"):
-        zs_m, _ = header(case, t, d2, A, b, v, [1 if mode == "qoperation" else 0])
-        out = m.call("c19.tomo_mse", zs_m, qs + [eps] + ns + rflat(L))
-        resid, msev, ana, exact, empi_tr, empi_cl = [float(x) for x in out[:6]]
-        V_m = np.array(fl(out[6:])).reshape(nv, nv)
-        if resid > 1e-9:
-            bad("matrix_util.calc_left_inv", "certificate", "max|L A - I| = %g" % resid)
-            return
+        ana = ana_var if mode == "var" else ana_qop
         got = float(t.calc_mse_linear_analytical(truth, ns, mode=mode))
-        if not flow.close(got, ana, TOL):
-            bad(cls + ".calc_mse_linear_analytical", "value-" + mode, "mode=%s: %s, model of the code %s" % (mode, got, ana))
         # the property: the analytical value is the exact expectation of the squared error
         #   var mode        : E|L(f-p)|^2 = tr(L Sigma L^T)                         (theorem C19_mse_var_exact)
         #   qoperation mode : E|stack(v^) - stack(v)|^2 = tr V + tr(S V S^T)         (theorem C19_mse_object_exact)
+        # the model of the (repaired) code [ana] equals it for all types (theorems C19_tomo_mse_var/qoperation_exact)
         target = msev if mode == "var" else exact
+        if not flow.close(ana, target, 1e-12):
+            bad("model:C19_tomo_mse_%s_exact" % mode, "theorem-instance", "model of the code %s differs from the exact expectation %s" % (ana, target))
         if not flow.close(got, target, TOL):
             bad(cls + ".calc_mse_linear_analytical", "not-exact-expectation-" + mode,
                 "mode=%s on_para_eq_constraint=%s: analytical %.12g, exact expectation of the squared error of the %s %.12g (ratio %.6f)" % (
                     mode, eq, got, "variables" if mode == "var" else "object (stacked vector)", target, got / target if target else float("nan")))
+        elif not flow.close(got, ana, TOL):
+            bad(cls + ".calc_mse_linear_analytical", "value-" + mode, "mode=%s: %s, model of the code %s" % (mode, got, ana))
     Vi = t.calc_covariance_linear_mat_total(truth, ns)
     if not close_arr(Vi, V_m, TOL):
         bad(cls + ".calc_covariance_linear_mat_total", "value", "L Sigma L^T differs from model (max diff %g)" % np.max(np.abs(Vi - V_m)))
@@ -518,15 +574,21 @@ def chk_tomo(ctx, case):
         ir = impl_call(t.calc_fisher_matrix, j, truth if eq == truth.on_para_eq_constraint else v)
         if ms_ == "err" or ir[0] == "err":
             if not (ms_ == "err" and ir[0] == "err" and ir[1] == "ValueError"):
-                bad(cls + ".calc_fisher_matrix", "error-branch", "schedule %d: model %s %s impl %s" % (j, ms_, Fm, ir))
+                if mixed:
+                    bad("StandardQTomography.calc_fisher_matrix", "mixed-outcome-counts", "schedules with %s outcomes, schedule %d: model %s, implementation %s" % (ms, j, ms_, ir))
+                else:
+                    bad(cls + ".calc_fisher_matrix", "error-branch", "schedule %d: model %s %s impl %s" % (j, ms_, Fm, ir))
             return
         if not close_arr(ir[1], fl(Fm), TOL):
-            bad(cls + ".calc_fisher_matrix", "value", "schedule %d: Fisher matrix differs from model" % j)
+            if mixed:
+                bad("StandardQTomography.calc_fisher_matrix", "mixed-outcome-counts", "schedules with %s outcomes, schedule %d: Fisher matrix is not the one of rows [%d,%d) of matA" % (ms, j, offs[j], offs[j + 1]))
+            else:
+                bad(cls + ".calc_fisher_matrix", "value", "schedule %d: Fisher matrix differs from model" % j)
         # textbook definition away from the eps-replacement: sum_x p_x s_x s_x^T with s_x = grad p_x / p_x
-        pj = raw[j * mrow:(j + 1) * mrow]
+        pj = raw[offs[j]:offs[j + 1]]
         if np.min(pj) >= 2 * EPS8:
-            Gj = A[j * mrow:(j + 1) * mrow]
-            refF = sum(pj[x] * np.outer(Gj[x] / pj[x], Gj[x] / pj[x]) for x in range(mrow))
+            Gj = A[offs[j]:offs[j + 1]]
+            refF = sum(pj[x] * np.outer(Gj[x] / pj[x], Gj[x] / pj[x]) for x in range(ms[j]))
             if not close_arr(ir[1], refF, TOL):
                 bad(cls + ".calc_fisher_matrix", "definition", "schedule %d: not sum_x p_x s_x s_x^T" % j)
     N = case["N"]
@@ -571,15 +633,23 @@ SETUPS_QUICK = [
     ("qpt", "qubit", 0, ["typical"], ["typical"]),
     ("qpt", "qubit", 0, ["random", 31, 4], ["random", 32, 2, 3]),
     ("qmpt", "qubit", 2, ["typical"], ["typical"]),
+    ("qmpt", "qubit", 3, ["typical"], ["typical"]),      # 3 outcomes: two full HS blocks contribute to the implied first row
+    # tester POVMs with DIFFERENT numbers of outcomes (schedules of unequal length)
+    ("qst", "qubit", 0, None, ["mixed", 15, [3, 2]]),
+    ("qst", "qubit", 0, None, ["mixed", 16, [2, 4, 3]]),
+    ("qpt", "qubit", 0, ["typical"], ["mixed", 35, [2, 3]]),
 ]
 SETUPS_MORE = [
+    ("qst", "qutrit", 0, None, ["mixed", 17, [4, 3, 5, 3]]),
+    ("qpt", "qubit", 0, ["random", 36, 4], ["mixed", 37, [4, 2]]),
+    ("qmpt", "qubit", 2, ["typical"], ["mixed", 45, [2, 3]]),
     ("qst", "qutrit", 0, None, ["random", 13, 3, 4]),
     ("qst", "qutrit", 0, None, ["random", 14, 5, 3]),
     ("povmt", "qutrit", 3, ["typical"], None),
     ("povmt", "qutrit", 4, ["random", 22, 10], None),
     ("qpt", "qubit", 0, ["random", 33, 5], ["random", 34, 1, 4]),
     ("qmpt", "qubit", 2, ["random", 41, 4], ["random", 42, 2, 3]),
-    ("qmpt", "qubit", 3, ["typical"], ["typical"]),
+    ("qmpt", "qubit", 3, ["random", 46, 4], ["random", 47, 2, 2]),
 ]
 HEAVY = {"qmpt": 4, "qpt": 2}      # relative cost: fewer cases
 
@@ -643,11 +713,13 @@ def chk_object_err(ctx, case):
     ns = case["ns"]
     eps = Settings.get_atol()
     p = A @ v + b
-    mrow = nr // J
+    ms = sizes_of(t); offs = [0]
+    for x in ms:
+        offs.append(offs[-1] + x)
     est = LinearEstimator()
 
     def run(f):
-        empi = [(ns[j], f[j * mrow:(j + 1) * mrow]) for j in range(J)]
+        empi = [(ns[j], f[offs[j]:offs[j + 1]]) for j in range(J)]
         with warnings.catch_warnings():
             warnings.simplefilter("ignore")
             r = est.calc_estimate(t, empi, is_computation_time_required=False)
@@ -701,6 +773,8 @@ def sub_object_err(ctx):
         for eq in (True, False):
             if ctx.quick and not eq and kind in ("qst", "qpt"):
                 continue
+            if tp is not None and tp[0] == "mixed":
+                continue      # LinearEstimator with unequal outcome counts is property C09's business
             t = S.build_tomo(kind, sysn, eq, ts, tp, mo)
             for _ in range(ctx.n(1, 3)):
                 cases.append({"type": kind, "sys": sysn, "eq": eq, "mo": mo, "tst_states": ts, "tst_povms": tp,
@@ -758,6 +832,7 @@ def run(ctx):
     ctx.rule = ("helpers: seeded small rationals (impl gets float(r), model the same float exactly) incl. zeros / sub-threshold entries and a malformed stream; "
                 "expect: rational distributions with 2..4 outcomes, n <= 8 shots, complete enumeration of all outcome sequences in the model; "
                 "tomo / object_err: QST, POVMT, QPT, QMPT on 1 qubit / 1 qutrit with quara's typical testers and with seeded random (asymmetric, full-rank) testers of 2..4 outcomes, "
+                "and tester POVM sets with unequal outcome counts ([3,2], [2,4,3], ...), "
                 "seeded random physical truths (mixed and rank-deficient states, generic POVMs, CPTP maps from random isometries, instruments) plus named pure truths "
                 "(zero probabilities -> truncation / eps-replacement branches), equal / unequal / tiny sample-size lists, both parametrisations, both modes; "
                 "non-trivial = outside the threshold bands (|p - eps| relative 1e-3) and, where a count applies, at least 2 schedules/blocks; distinct = distinct case record")
